@@ -63,7 +63,8 @@ def main():
         checks = [c for c in checks if re.match(r"^C\d+$", c)]
     round2 = "--round2" in sys.argv
     round3 = "--round3" in sys.argv
-    sd = ("/tmp/seed3/" if round3 else "/tmp/seed2/" if round2 else "/tmp/seed/") + pid
+    round4 = "--round4" in sys.argv
+    sd = ("/tmp/seed4/" if round4 else "/tmp/seed3/" if round3 else "/tmp/seed2/" if round2 else "/tmp/seed/") + pid
     wt = sd + "/wt"
     out = sd + "/out"
     patch = out + "/patch.diff"
@@ -144,7 +145,7 @@ def main():
         rc, o = sh(["git", "-C", "/repo", "status", "--porcelain"])
         if o.strip():
             print("WARNING /repo not clean after revert:", o)
-    dst = "/verif/seeded/" + pid + ("-r3" if round3 else "-r2" if round2 else "")
+    dst = "/verif/seeded/" + pid + ("-r4" if round4 else "-r3" if round3 else "-r2" if round2 else "")
     os.makedirs(dst, exist_ok=True)
     shutil.copy(patch, dst + "/patch.diff")
     shutil.copy(os.path.join(out, demo["file"]), os.path.join(dst, demo["file"]))
